@@ -81,7 +81,8 @@ def geom_specs(draw, ndims, origin=True, aniso=True):
     else:
         lengths = [draw(st.sampled_from(LENGTHS)) for _ in range(ndims)]
     if origin and draw(st.booleans()):
-        orig = [draw(st.sampled_from(ORIGINS)) for _ in range(ndims)]
+        # |origin| <= 10 x domain length: keeps numpy.isclose bands used by the tools well below one cell
+        orig = [draw(st.sampled_from(ORIGINS)) * lengths[d] for d in range(ndims)]
     else:
         orig = [0.0] * ndims
     return dict(iso=iso, lengths=lengths, origin=orig)
